@@ -72,6 +72,26 @@ def load_ref(ref):
         mol.SetProp("_Name", "exotic-" + ref["exotic"])
         _cache[key] = mol
         return mol
+    if "overlap" in ref:
+        # a conformer with heavy atoms at exactly identical coordinates (a record without coordinates: everything at the
+        # origin; an atom placed on another one).  The library warns and continues; distance 0 lies within every positive radius.
+        import random as _r
+        rr = _r.Random(ref.get("seed", 1))
+        base = load_ref(ref["overlap"])
+        mol = Chem.Mol(base)
+        mol.RemoveAllConformers()
+        c = Chem.Conformer(base.GetConformer(0))
+        heavy = [a.GetIdx() for a in mol.GetAtoms() if a.GetAtomicNum() > 1]
+        if ref.get("mode") == "allzero" or len(heavy) < 2:
+            for i in range(c.GetNumAtoms()):
+                c.SetAtomPosition(i, Point3D(0.0, 0.0, 0.0))
+        else:
+            i, j = rr.sample(heavy, 2)
+            c.SetAtomPosition(j, c.GetAtomPosition(i))
+        mol.AddConformer(c, assignId=True)
+        mol.SetProp("_Name", "overlap")
+        _cache[key] = mol
+        return mol
     if "ideal" in ref:
         # an idealised, exactly symmetric conformer: RDKit's 2D depiction (regular polygons, equal bond lengths) taken as a planar
         # 3D conformer - what idealised builders, depiction-derived inputs and symmetric crystal positions look like
